@@ -71,6 +71,21 @@ CHECKS = {
         'paths, accessors, children, child(i) and entry(i) for all i in [-n-1, n], entries, one_level) and compose/transform/broadcast results (full node arrays) with the implementation.',
    note=TB + 'The treespec algorithms are modelled at tree level (stree); the array layer is tied in by decode/encode theorems and by comparing full __getstate__ arrays, not by a refinement proof of each C++ index walk. treespec_* constructors and repr text are compared only through the harness.',
    design='§7 C08'),
+ 'C12': dict(
+   technique='Coq proof (invariant by induction over operation histories; failed step = identity) + exhaustive-history correspondence in forked processes',
+   text='Theorems: a call that raises for any reason leaves the registry exactly as it was; after ANY history the engine registry and the Python registry agree, no (type, namespace) is registered twice and no built-in is registered; an operation in one namespace never changes what is registered in another; '
+        'namespace registrations shadow global ones; the Python-visible lookup equals what flattening uses; double registration, unregistering something absent and (un)registering built-ins fail; register then unregister restores both registries. '
+        'The run executes every history of length 2 (thorough: 3) over {plain, namedtuple subclass, struct sequence, built-in, non-class} x {global, \'a\', \'b\', \'\', non-string} x {register, unregister} (+ bad entry type) x warnings {ignored, errors}, plus sampled longer ones, each in a forked child, '
+        'and compares outcome and the full observable state after every step (flatten of probe instances in every namespace x both none_is_leaf, get(cls, ns), get(namespace=ns)[cls]) with the model.',
+   note=TB + 'register_pytree_node_class and the dataclass registration path go through the same register call and are not separately enumerated. Registration identity is observed through a per-registration tag in the flatten function\'s metadata.',
+   design='§7 C12'),
+ 'C13': dict(
+   technique='Coq proof (induction over program trees of nested with-blocks, normal and raising exits) + exhaustive small-program correspondence',
+   text='Theorems: for every well-nested program (any depth, any interleaving of namespaces, normal or raising exits) the mode of every namespace after a block equals the mode before it; inside a block only the named namespace changes; flattening in namespace m is insertion-ordered iff m or the global namespace has the flag; dict/defaultdict follow the mode and OrderedDict never does. '
+        'The run enumerates all programs of depth <= 2 with <= 2 statements per block and all depth-3 chains over {global, \'a\', \'b\'} x {True, False} x {normal, raise} (20 641 programs), plus random deeper ones, and compares each namespace\'s own flag and its effective behaviour (leaf order of a probe dict) at every observation point and at the end with the model; '
+        'an oracle checks every traversal entry point, treespec_dict, round trip and register_pytree_node.get(dict) against the current mode.',
+   note=TB + 'The mode switch is process-wide and documented as not thread-safe; concurrency is out of scope here (C17).',
+   design='§7 C13'),
 }
 PLANNED = {}
 def main():
